@@ -1,6 +1,7 @@
 	// ===== engine K harnesses for rcgen/src/crl.rs =====
 	use crate::verif_lib::{any_dt, bare_params, fixed_random_state, ku_of};
 	use crate::{CertificateParams, DistinguishedName, IsCa, RemoteKeyPair, SignatureAlgorithm, PKCS_ED25519};
+	use time::OffsetDateTime;
 
 	struct Rk { pk: [u8; 4] }
 	impl RemoteKeyPair for Rk {
